@@ -529,4 +529,41 @@ theorem sphDivergence_conservative_grid_uniform (F : List Int → ℝ → ℝ) (
   exact sphDivergence_conservative_odd_smooth_uniform F hF hodd M3 hM3 (rmin - h / 2) h hh i _ rfl hc
 
 
+/-! ### non-vacuity of the remaining conditional theorems (hypotheses instantiated) -/
+
+theorem abs_iteratedDeriv_cos_mul_const_le (n : ℕ) (c x : ℝ) (hc : |c| ≤ 1) :
+    |iteratedDeriv n (fun s => Real.cos s * c) x| ≤ 1 := by
+  rw [iteratedDeriv_mul_const_field, abs_mul]
+  exact mul_le_one₀ (Real.abs_iteratedDeriv_cos_le_one n x) (abs_nonneg c) hc
+
+/-- `cos r · cos z` in every cell of a full cylinder (`x0 = -h/2`, `i ≥ 1`), any `h > 0`, `k ≠ 0` -/
+example (h z0 k : ℝ) (hh : 0 < h) (hk : k ≠ 0) (i j : Int) (hi : 1 ≤ i) :=
+  cylLaplace_even_smooth_uniform (fun _ r z => Real.cos r * Real.cos z)
+    (fun z => Real.contDiff_cos.mul contDiff_const) (fun r => contDiff_const.mul Real.contDiff_cos)
+    (fun r z => by simp [Real.cos_neg]) 1 1
+    (fun r z => abs_iteratedDeriv_cos_mul_const_le 4 _ r (Real.abs_cos_le_one z))
+    (fun r z => abs_iteratedDeriv_const_mul_cos_le 4 _ z (Real.abs_cos_le_one r))
+    (-(h/2)) h z0 k hh hk i j _ _ rfl rfl
+    (by have : (1:ℝ) ≤ (i:ℝ) := by exact_mod_cast hi
+        nlinarith)
+
+example (h z0 k : ℝ) (hh : 0 < h) (hk : k ≠ 0) (i j : Int) (hi : 1 ≤ i) :=
+  cylVectorLaplace_z_even_smooth_uniform (fun _ r z => Real.cos r * Real.cos z)
+    (fun r => contDiff_const.mul Real.contDiff_cos) (fun z => Real.contDiff_cos.mul contDiff_const)
+    (fun r z => by simp [Real.cos_neg]) 1 1
+    (fun r z => abs_iteratedDeriv_const_mul_cos_le 4 _ z (Real.abs_cos_le_one r))
+    (fun r z => abs_iteratedDeriv_cos_mul_const_le 4 _ r (Real.abs_cos_le_one z))
+    (-(h/2)) h z0 k hh hk i j _ _ rfl rfl
+    (by have : (1:ℝ) ≤ (i:ℝ) := by exact_mod_cast hi
+        nlinarith)
+
+example (h : ℝ) (hh : 0 < h) :=
+  sphLaplace_plain_even_smooth_uniform (fun _ => Real.cos) Real.contDiff_cos Real.cos_neg 1
+    (fun y => Real.abs_iteratedDeriv_cos_le_one 4 y) (-(h/2)) h hh 1 (h/2) (by push_cast; ring) le_rfl
+
+example (h : ℝ) (hh : 0 < h) :=
+  sphTensorDoubleDivergence_plain_even_smooth_uniform (fun _ => Real.cos) Real.contDiff_cos Real.contDiff_cos
+    Real.cos_neg Real.cos_neg 1 1 (fun y => Real.abs_iteratedDeriv_cos_le_one 4 y)
+    (fun y => Real.abs_iteratedDeriv_cos_le_one 4 y) (-(h/2)) h hh 1 (h/2) (by push_cast; ring) le_rfl
+
 end PdeVerif.Stencil
